@@ -348,6 +348,10 @@ macro_rules! group_common {
             "from_slice" => Some(res($G::from_slice(&a_bytes(p[0])?))),
             "from_uncompressed" => Some(res($G::from_uncompressed(&a_bytes(p[0])?))),
             "from_compressed" => Some(res($G::from_compressed(&a_bytes(p[0])?))),
+            // composite observations: decode(encode(P)) in one of the three formats
+            "rt_slice" => Some(res($G::from_slice(&$garg($regs, p[0])?.to_slice()))),
+            "rt_uncompressed" => Some(res($G::from_uncompressed(&$garg($regs, p[0])?.to_uncompressed()))),
+            "rt_compressed" => Some(res($G::from_compressed(&$garg($regs, p[0])?.to_compressed()))),
             "to_slice" => Some(Ok(Out::Bytes($garg($regs, p[0])?.to_slice().to_vec()))),
             "to_uncompressed" => Some(Ok(Out::Bytes($garg($regs, p[0])?.to_uncompressed().to_vec()))),
             "to_compressed" => Some(Ok(Out::Bytes($garg($regs, p[0])?.to_compressed().to_vec()))),
